@@ -8,6 +8,7 @@ import (
 	"encoding/json"
 	"fmt"
 	"os"
+	"runtime"
 	"strings"
 	"sync"
 	"sync/atomic"
@@ -208,6 +209,18 @@ func Watch(id, test string, c any) func() {
 							Violations: []Violation{V("hang", "a single call did not return within %v", HangLimit)}}, "", " ")
 						_ = os.WriteFile(dir+"/current-case.json", b, 0o644)
 					}
+					buf := make([]byte, 4<<20)
+					buf = buf[:runtime.Stack(buf, true)]
+					if dir := os.Getenv("VERIF_FAIL"); dir != "" {
+						_ = os.WriteFile(dir+"/hang-stacks.txt", buf, 0o644)
+					}
+					// goroutines that are blocked but not durably (mutex waiters) explain
+					// why a bubble's clock stopped
+					for _, g := range strings.Split(string(buf), "\n\n") {
+						if strings.Contains(g, "synctest bubble") && !strings.Contains(g, "(durable)") {
+							fmt.Println(g)
+						}
+					}
 					fmt.Printf("HANG: property %s: a call did not return within %v\n", p.id, HangLimit)
 					os.Exit(3)
 				}
@@ -233,4 +246,34 @@ func ClearRecord() {
 	if dir := os.Getenv("VERIF_FAIL"); dir != "" {
 		_ = os.Remove(dir + "/current-case.json")
 	}
+}
+
+// Enumerate runs check on every case of a finite list (no rapid): the
+// exhaustive tier of fault-enumeration checks. Replay files work as for Run.
+func Enumerate[C any](t *testing.T, id string, rec *evid.Rec, cases []C, check func(C, *evid.Rec) []Violation) {
+	t.Helper()
+	if rp := os.Getenv("VERIF_REPLAY"); rp != "" {
+		replay(t, id, rp, rec, check)
+		return
+	}
+	defer rec.Flush()
+	shard, shards := 0, 1
+	fmt.Sscan(os.Getenv("VERIF_SHARD"), &shard)
+	fmt.Sscan(os.Getenv("VERIF_SHARDS"), &shards)
+	if shards < 1 {
+		shards = 1
+	}
+	n := 0
+	for i, c := range cases {
+		if i%shards != shard {
+			continue
+		}
+		n++
+		vs := safeCheck(c, rec, check)
+		if bad := filter(id, rec, vs); len(bad) > 0 {
+			writeFail(id, t.Name(), c, bad)
+			t.Fatalf("property %s violated: %s: %s", id, bad[0].Key, bad[0].Msg)
+		}
+	}
+	fmt.Printf("[enumerate] OK, passed %d of %d cases (shard %d/%d)\n", n, len(cases), shard, shards)
 }
